@@ -28,6 +28,7 @@ func init() {
 func runC13(p *core.Program, r *core.Report) {
 	c := rc{p, r}
 	noAnswerBeforeTheScan(c, "gogu.IndexOf", "gogu.FindIndex", "gogu.LastIndexOf", "gogu.FindLastIndex", "gogu.Contains", "gogu.Some", "gogu.Every", "gogu.FindAll", "gogu.FindMin", "gogu.FindMinBy", "gogu.FindMinByKey", "gogu.FindMax", "gogu.FindMaxBy", "gogu.FindMaxByKey", "gogu.Min", "gogu.Max", "gogu.Sum", "gogu.SumBy", "gogu.Mean")
+	resultUntouchedAfterTheScan(c, "gogu.IndexOf", "gogu.FindIndex", "gogu.LastIndexOf", "gogu.FindLastIndex", "gogu.Contains", "gogu.Some", "gogu.Every", "gogu.FindAll", "gogu.FindMin", "gogu.FindMinBy", "gogu.FindMinByKey", "gogu.FindMax", "gogu.FindMaxBy", "gogu.FindMaxByKey", "gogu.Min", "gogu.Max", "gogu.Sum", "gogu.SumBy", "gogu.Mean")
 	hygiene(c, "find.go", "math.go", "generic.go", "range.go")
 	checkRange(c)
 	checkNth(c)
